@@ -19,10 +19,11 @@ structure Buf where
 def Buf.increase (b : Buf) (n : Nat) : Buf × Bool :=
   ({ b with usage := b.usage + n }, b.usage + n ≤ b.max)
 
-/-- `Arena::new` (arena.rs:10): a failed preallocation is swallowed (`debug_assert!` only). -/
+/-- `Arena::new` (arena.rs:12): the preallocation is clamped to the limit, so the charge succeeds
+(the reservation itself is assumed not to fail). -/
 def Buf.new (max prealloc : Nat) : Buf :=
-  let r := ({ max := max } : Buf).increase prealloc
-  if r.2 then { r.1 with cap := prealloc } else r.1
+  let p := min prealloc max
+  { max := max, cap := p, usage := p }
 
 /-- `Arena::append` (arena.rs:26) -/
 def Buf.append (b : Buf) (s : Bytes) : Buf × Bool :=
@@ -53,6 +54,8 @@ structure Stream (γ : Type) where
   buf : Buf
   hasBuffered : Bool := false
   cfg : Settings
+  /-- ghost: how many times the bail-out handlers were run -/
+  bailOutRuns : Nat := 0
   deriving Repr, Inhabited
 
 variable {γ : Type}
@@ -73,18 +76,20 @@ def Stream.disp (s : Stream γ) : Disp γ := s.parser.x.sink
 def Stream.setDisp (s : Stream γ) (d : Disp γ) : Stream γ :=
   { s with parser := { s.parser with x := { s.parser.x with sink := d } } }
 
-/-- `should_bail_out_for` (mod.rs:82) -/
-def Stream.shouldBailOutFor (s : Stream γ) : Err → Bool
-  | .mem => s.cfg.bailOnMem
-  | .handler => s.cfg.bailOnHandler
+/-- `should_bail_out_for` (mod.rs:82): each flag recovers only its own error kind -/
+def Settings.recovers (cfg : Settings) : Err → Bool
+  | .mem => cfg.bailOnMem
+  | .handler => cfg.bailOnHandler
   | _ => false
+
+def Stream.shouldBailOutFor (s : Stream γ) (e : Err) : Bool := s.cfg.recovers e
 
 /-- bail out: handlers, then flush the given slices in order -/
 def Stream.bail (w : World γ) (s : Stream γ) (e : Err) (slices : List Bytes) : Stream γ :=
   if s.shouldBailOutFor e then
     let d := s.disp.runBailOut w.ctl e
     let d := slices.foldl (fun d sl => match d.flushForBailOut sl with | .ok d => d | .error _ => d) d
-    s.setDisp d
+    { s.setDisp d with bailOutRuns := s.bailOutRuns + 1 }
   else s
 
 /-- the bytes the next parse will see: buffered tail ++ new data (`Arena::append`), or the data itself.
